@@ -325,6 +325,22 @@ m("hex-prefix-check-off-by-one", ["C14"], "break", "lexer.go",
 m("hex-prefix-check-le", ["C14", "C13", "C03"], "keep", "lexer.go",
   "	if base == 16 && i == 2 {\n		// \"0x\"", "	if base == 16 && i <= 2 {\n		// \"0x\"")
 
+# ---- C04/R3 (bounds of the consumers, LEXBOUNDS over package ast) ---------------------------------
+m("nodeslicelast-guard-dropped", ["C04"], "break", "ast/pos_util.go",
+  "func nodeSliceLast[T Node](ns []T) Node {\n	if len(ns) == 0 {\n		return nil\n	}\n\n	return ns[len(ns)-1]",
+  "func nodeSliceLast[T Node](ns []T) Node {\n	return ns[len(ns)-1]", "End() of a node whose list is empty panics")
+m("nodesliceindex-guard-is-nil-test", ["C04"], "break", "ast/pos_util.go",
+  "func nodeSliceIndex[T Node](ns []T, i int) Node {\n	if len(ns) == 0 {",
+  "func nodeSliceIndex[T Node](ns []T, i int) Node {\n	if ns == nil {", "an empty non-nil list (trailing-comma recoveries) indexes out of range")
+m("nodeslicelast-via-index", ["C04", "C05"], "keep", "ast/pos_util.go",
+  "	return ns[len(ns)-1]\n}", "	last := len(ns) - 1\n	return ns[last:][0]\n}")
+m("badnode-sql-index-loop", ["C04", "C10"], "keep", "ast/sql.go",
+  "	for _, tok := range b.Tokens {\n		if sql != \"\" && (len(tok.Space) > 0 || len(tok.Comments) > 0) {",
+  "	for i := 0; i < len(b.Tokens); i++ {\n		tok := b.Tokens[i]\n		if sql != \"\" && (len(tok.Space) > 0 || len(tok.Comments) > 0) {")
+m("badnode-sql-index-loop-off-by-one", ["C04"], "break", "ast/sql.go",
+  "	for _, tok := range b.Tokens {\n		if sql != \"\" && (len(tok.Space) > 0 || len(tok.Comments) > 0) {",
+  "	for i := 0; i <= len(b.Tokens)-1; i++ {\n		tok := b.Tokens[i+1]\n		if sql != \"\" && (len(tok.Space) > 0 || len(tok.Comments) > 0) {", "expected suite-FAIL? Bad nodes are printed by the suite")
+
 def sh(cmd, cwd=None):
     return subprocess.run(cmd, shell=True, cwd=cwd, capture_output=True, text=True)
 
